@@ -147,9 +147,10 @@ LOCAL_SETS = {
     ("step", "close_list"): ({"li"}, "empty_set", "the li start tag closes an open li"),
     ("step", "close_defn"): ({"dd", "dt"}, "empty_set", "dd / dt start tags close an open dd or dt"),
     ("step", "extra_special"): ({"-address", "-div", "-p"}, "special_tag", "special category minus address, div, p"),
-    ("step", "table_outer"): ({"table", "tbody", "tfoot"}, "empty_set",
-                              "REVIEWED EQUIVALENT, not the standard's wording (tbody, thead, tfoot): the set is only searched with in_scope(table_scope, ..) in the 'in table body' mode; "
-                              "a thead on the stack always sits on a table, which is found first, and without a table (fragment case) the search stops at html / template either way"),
+    ("step", "table_outer"): ({"tbody", "tfoot", "thead"}, "empty_set",
+                              "the standard's wording: 'does not have a tbody, thead, or tfoot element in table scope' (in table body; caption/col/colgroup/tbody/tfoot/thead start tags, </table>). "
+                              "Until F26 the code had (table, tbody, tfoot) and an earlier review accepted that as equivalent - wrongly: inside template contents a thead sits on the stack "
+                              "without a table (<template><thead><caption>), is not found, and the token is ignored"),
     ("appropriate_place_for_insertion", "foster_target"): ({"table", "tbody", "tfoot", "thead", "tr"}, "empty_set", "foster parenting targets"),
     ("check_body_end", "body_end_ok"): ({"body", "dd", "dt", "html", "li", "optgroup", "option", "p", "rp", "rt", "tbody", "td", "tfoot", "th", "thead", "tr"}, "empty_set",
                                         "decides a parse error only (the standard's list also has rb and rtc)"),
